@@ -370,8 +370,15 @@ Error BaseBuilder::section(Section* section) {
     return report_error(make_error(Error::kInvalidSection));
   }
 
+  // The section must be owned by the attached CodeHolder - a section of another CodeHolder that happens to have
+  // a valid id would otherwise silently select a different section (same check as `BaseAssembler::section()`).
+  uint32_t section_id = section->section_id();
+  if (ASMJIT_UNLIKELY(_code && (!_code->is_section_valid(section_id) || _code->section_by_id(section_id) != section))) {
+    return report_error(make_error(Error::kInvalidSection));
+  }
+
   SectionNode* node;
-  ASMJIT_PROPAGATE(section_node_of(Out(node), section->section_id()));
+  ASMJIT_PROPAGATE(section_node_of(Out(node), section_id));
   ASMJIT_ASSUME(node != nullptr);
 
   if (!node->is_active()) {
